@@ -137,7 +137,8 @@ Inductive case :=
 | CPair (l r : value) (orc : oracle) (lr rl : list iobs)   (* all_binops on (l,r) and on (r,l), distinct objects *)
 | CSame (v : value) (orc : oracle) (obs : list iobs)       (* all_binops on (v,v), the SAME Go object *)
 | CUn (v : value) (orc : oracle) (obs : list iobs)         (* all_unops *)
-| CCtxs (v : value) (obs : list iobs).                     (* all_ctx: IVal (VBool b) = branch taken *)
+| CCtxs (v : value) (obs : list iobs)                      (* all_ctx: IVal (VBool b) = branch taken *)
+| CCasts (v : value) (orc : oracle) (obs : list iobs).     (* (int), (float) *)
 
 Definition cres_agree (c : cres) (i : iobs) : bool :=
   match c, i with
@@ -186,4 +187,17 @@ Definition check_case (c : case) : list nat :=
       check_ops lib true 0 0 all_binops v v obs ++ laws 0 obs obs
   | CUn v orc obs => check_uns (lib_of orc) 0 all_unops v obs
   | CCtxs v obs => check_ctxs 0 all_ctx v obs
+  | CCasts v orc obs =>
+      (* casts: 4650 + i*10 + k *)
+      let lib := lib_of orc in
+      (fix go (i : nat) (cs : list castop) (obs : list iobs) : list nat :=
+         match cs, obs with
+         | c :: cs', ob :: obs' =>
+             (if agree (cast_eval lib c v) ob then [] else [(4650 + i * 10 + 1)%nat]) ++
+             (if scalar v && wf v && negb (agree (ref_cast lib c v) ob) then [(4650 + i * 10 + 2)%nat] else []) ++
+             (if acceptable (to_outcome ob) then [] else [(4650 + i * 10 + 3)%nat]) ++
+             go (S i) cs' obs'
+         | [], [] => []
+         | _, _ => [4999%nat]
+         end) 0%nat [CastInt; CastFloat] obs
   end.
